@@ -20,7 +20,7 @@ fn p_grid() -> Vec<f64> {
 
 fn case_t<T: Sc>(rng: &mut Rng, case: u64, out: &mut CaseOut) {
     let stream = "fits";
-    let Some((spec, class)) = gen_stat_spec(rng) else {
+    let Some((spec, class)) = gen_stat_spec(rng, T::IS_F64) else {
         out.inconcl("shape not constructible");
         return;
     };
@@ -46,16 +46,7 @@ fn case_t<T: Sc>(rng: &mut Rng, case: u64, out: &mut CaseOut) {
     let (j, h) = oracle_jacobians::<T>(&spec, &sf.alpha, &sf.c);
     let detail = |extra: serde_json::Value| json!({"problem": spec.to_json(), "alpha_hat": sf.alpha, "c_hat": sf.c.d, "nu": sf.nu, "extra": extra});
     // is the value comparison decidable here?
-    let value_ok = {
-        if !h.all_finite() || !cov.all_finite() {
-            false
-        } else {
-            let (ev, _) = la::sym_eig(&h.tmul(&h));
-            let lmax = ev.iter().cloned().fold(f64::MIN, f64::max);
-            let lmin = ev.iter().cloned().fold(f64::MAX, f64::min);
-            lmin > 0.0 && (lmax / lmin) * T::EPS <= 1e-3
-        }
-    };
+    let value_ok = cov.all_finite() && matches!(scaled_normal_matrix(&h), Some((_, _, kappa)) if kappa * T::EPS <= 1e-3);
     let ps = p_grid();
     let mut prev: Option<Vec<f64>> = None;
     let covf = cov.fro();
